@@ -276,6 +276,30 @@ def entries():
     A(Entry('SIS_pair_based_pure_IC', 'SIS', 'wrapper', ['sets'], _node_level('SIS_pair_based_pure_IC', False), {'Ss': 3, 'Is': 4, 'XY': 5, 'XX': 6}, nmax=6))
     A(Entry('SIR_pair_based', 'SIR', 'wrapper', ['rho'], _node_level('SIR_pair_based', True), {'Ss': 4, 'Is': 5, 'Rs': 6, 'XY': 7, 'XX': 8}, nmax=6))
     A(Entry('SIR_pair_based_pure_IC', 'SIR', 'wrapper', ['sets'], _node_level('SIR_pair_based_pure_IC', True), {'Ss': 4, 'Is': 5, 'Rs': 6, 'XY': 7, 'XX': 8}, nmax=6))
+    # ---- node-level models called with explicit arrays (nodelist, Y0, X0, XY0, XX0) ----
+    def pb_arrays(sir):
+        def argfn(c, ic):
+            nodes = list(ic.nodes)
+            n = ic.N
+            Y0 = ic.Y0.copy()
+            X0 = ic.X0.copy()
+            kw = {'nodelist': nodes, 'Y0': Y0, 'XY0': X0[:, None] * Y0[None, :], 'XX0': X0[:, None] * X0[None, :]}
+            if sir:
+                kw['X0'] = X0
+            return [oracles.build_graph(c['gc']), c['tau'], c['gamma']], kw
+        return argfn
+    A(Entry('SIS_pair_based[arrays]', 'SIS', 'direct', ['rho', 'sets'], _direct('SIS_pair_based', pb_arrays(False)), {'Ss': 3, 'Is': 4, 'XY': 5, 'XX': 6}, nmax=6))
+    A(Entry('SIR_pair_based[arrays]', 'SIR', 'direct', ['rho', 'sets'], _direct('SIR_pair_based', pb_arrays(True)), {'Ss': 4, 'Is': 5, 'Rs': 6, 'XY': 7, 'XX': 8}, nmax=6))
+
+    def ib_arrays(sir):
+        def argfn(c, ic):
+            kw = {'nodelist': list(ic.nodes), 'Y0': ic.Y0.copy()}
+            if sir:
+                kw['X0'] = ic.X0.copy()
+            return [oracles.build_graph(c['gc']), c['tau'], c['gamma']], kw
+        return argfn
+    A(Entry('SIS_individual_based[arrays]', 'SIS', 'direct', ['rho', 'sets'], _direct('SIS_individual_based', ib_arrays(False)), {'Ss': 1, 'Is': 2}, nmax=10, aux0='pernode-only'))
+    A(Entry('SIR_individual_based[arrays]', 'SIR', 'direct', ['rho', 'sets'], _direct('SIR_individual_based', ib_arrays(True)), {}, nmax=10))
     # ---- graph wrappers ----
     A(Entry('SIS_homogeneous_meanfield_from_graph', 'SIS', 'wrapper', ['rho', 'sets'], _wrapper('SIS_homogeneous_meanfield_from_graph', False, full=False)))
     A(Entry('SIR_homogeneous_meanfield_from_graph', 'SIR', 'wrapper', ['rho', 'sets'], _wrapper('SIR_homogeneous_meanfield_from_graph', True, full=False)))
